@@ -44,6 +44,12 @@ OnX(st, e, od, data) ==
         ELSE IF e.fault = "none"
           THEN IF e.dlv # e.r THEN Bad(st, "HARNESS: delivery differs without a fault")
                ELSE Good([st1 EXCEPT !.cl = CliAdvance(st.cl, e.q, e.r[1])])
+          ELSE IF e.fault = "refuse"
+            \* the peer refuses this request with an abort frame (any 32-bit code): the client is
+            \* aborted with exactly that code and must not emit further frames for this transfer
+            THEN IF Len(e.dlv) = 1 /\ IsAbort(e.dlv[1])
+                   THEN Good([st1 EXCEPT !.cl = CliAdvance(st.cl, e.q, e.dlv[1])])
+                   ELSE Bad(st, "HARNESS: refuse without abort frame")
           ELSE Good([st1 EXCEPT !.dist = TRUE, !.expTO = (e.fault \in {"drop", "late"})])
 
 DlCorrect(st, od, data) ==
